@@ -127,6 +127,13 @@ TEXT.update({
   "level": "No panic and bounded loops for the DICOM date, time and date-time parsers, the textual tag parser, the explicit header decoders and PDU prefix reading, for ALL inputs of the stated lengths.",
   "note": "file / collector / JSON text / JPEG / deflate / RLE / dump entry points, range parsers, data set readers on arbitrary streams and text-VR value readers are outside (third-party code or measured beyond budget)",
  },
+ "C09": {
+  "engine": "M",
+  "technique": "symbolic execution of the rustc MIR of FileMetaTable::{update_information_group_length, into_element_iter} and of the element encoder (StatefulEncoder + Explicit VR LE codec) with z3; the written group is walked by an independent PS3.5 parser and counted",
+  "level": "For tables of concrete shape (which of the 6 optional attributes are present, length 0..5 of every string, odd and even) with symbolic characters, the recorded File Meta Information Group Length equals the number of "
+           "bytes that follow the group length element when every element the table yields is written, and the group parses as Explicit VR LE. Each instance is compared with FileMetaTable::write run natively.",
+  "note": "group length clause only: reading the group back, attribute operations (ApplyOp), the builder's defaults and preamble detection are outside; the data set writer's token plumbing between into_element_iter and the encoder is covered by C04, not re-executed here",
+ },
  "C12": {
   "engine": "M",
   "technique": "typed symbolic evaluation with path merging of the MIR of <DicomTime as AsRange>::earliest/latest (z3 bit-vectors); symbolic execution of the MIR of the constructors, to_encoded, *_byte_len and the partial parsers "
@@ -172,7 +179,6 @@ NOT_APPLICABLE = {
  "C01": "write->read round trip needs DataSetReader over the real StatefulDecoder in the same harness as the writer; text/date value readers exceed 8 GB in CBMC (measured under C07) and the writer->reader harness was at 10 GB after 6 min; writer side is claimed under C04, headers under C03, numeric value readers under C07; the composition is not claimed",
  "C02": "same kernels as C01 (reader + writer in one harness beyond CBMC's reach here); the keep-lengths writer strategy on reference-encoded shapes is part of C04",
  "C06": "lazy vs eager reader comparison needs two full readers over the real StatefulDecoder per harness; the collector needs BufReader + global registry + dictionary; beyond both engines as built",
- "C09": "group-length arithmetic of FileMetaTableBuilder / ApplyOp was planned on Engine M with length-abstract strings; not built in this session, so nothing is claimed",
  "C10": "the codecs are the third-party `encoding` crate behind trait objects (one symbolic character: no verdict in 900 s on Kani; not MIR of the repository); the term<->set wiring is a finite concrete table with no quantifier for a solver",
  "C13": "InMemDicomObject::apply works on BTreeMap and nested Vec<InMemDicomObject>; Kani cost estimated beyond 24 GB, Engine M BTreeMap vocabulary not built",
  "C19": "lossless transcoding goes through the global registry, a file object and image codecs (flate2, jpeg): no unit within reach; UncompressedAdapter composition not built",
